@@ -728,7 +728,143 @@ class VolFront(Suite):
         return out
 
 
-SUITES = [TreeVol(), VolFront()]
+COMPOSITES = ["VolSDFUnion", "VolSDFIntersection", "VolSDFDifference", "VolSphere2Union", "VolSphere2Intersection",
+              "VolSphereFrustumConeUnion", "VolSphereFrustumConeIntersection"]
+
+
+def obj_enc(o):
+    """prefix form of an object description: ["S", i] | ["F", a, b] | [class, obj1, obj2]"""
+    if o[0] == "S":
+        return f"S{o[1]}"
+    if o[0] == "F":
+        return f"F{o[1]}:{o[2]}"
+    return f"{o[0]},{obj_enc(o[1])},{obj_enc(o[2])}"
+
+
+def rand_obj(rng, depth):
+    k = rng.random()
+    if depth == 0 or k < 0.3:
+        return ["S", rng.randrange(3)]
+    if k < 0.6:
+        a = rng.randrange(3)
+        return ["F", a, (a + 1 + rng.randrange(2)) % 3]
+    return [rng.choice(COMPOSITES), rand_obj(rng, depth - 1), rand_obj(rng, depth - 1)]
+
+
+class VolObjects(Suite):
+    """the dispatch layer of utils/volumetric_object.py - which composite `a.union(b)` / `a.intersect(b)` / `a.subtract(b)` builds, which
+    computation the `_get_volume` of the composites selects, the cache of `get_volume` - against the definitions GENERATED from the source on
+    this run; the library's classes are observed from the outside (methods wrapped in this process), /repo is not edited"""
+    name = "c14.objects"
+    case_timeout = 60
+
+    def cases(self, rng, tier, widen):
+        out = []
+        big = tier == "thorough" or widen
+        for j in range(12 if not big else 60):
+            pairs = [[rng.choice(["union", "intersect", "subtract"]), rand_obj(rng, 2), rand_obj(rng, 2)] for _ in range(6)]
+            geo = {"c": [[float(rng.randint(-4, 4)) for _ in range(3)] for _ in range(3)], "r": [rng.randint(1, 12) / 4 for _ in range(3)]}
+            geo["c"][1][0] = geo["c"][0][0] + rng.randint(1, 5)          # three distinct centres
+            geo["c"][2][1] = geo["c"][0][1] - rng.randint(1, 5)
+            out.append({"class": "objects", "pairs": pairs, "geo": geo,
+                        "sfi": rng.choice(["end1", "end2", "end1-radius", "end2-radius", "apart", "end1-close", "both"]),
+                        "cache": [rng.choice([None, rng.randint(1, 40) / 8]), rng.randint(1, 40) / 8]})
+        return out
+
+    def run(self, case):
+        import swcgeom.utils.volumetric_object as VO
+
+        geo = case["geo"]
+        c = [np.array(x, dtype=np.float32) for x in geo["c"]]
+        r = [np.float32(x) for x in geo["r"]]
+
+        def build(o):
+            if o[0] == "S":
+                return VO.VolSphere(c[o[1]], r[o[1]])
+            if o[0] == "F":
+                return VO.VolFrustumCone(c[o[1]], r[o[1]], c[o[2]], r[o[2]])
+            return getattr(VO, o[0])(build(o[1]), build(o[2]))
+
+        res = {"pairs": []}
+        for op, ea, eb in case["pairs"]:
+            a, b = build(ea), build(eb)
+            try:
+                out = getattr(a, op)(b)
+                who = {id(a): obj_enc(ea), id(b): obj_enc(eb)}
+                res["pairs"].append(f"{type(out).__name__},{who.get(id(out.obj1), '?')},{who.get(id(out.obj2), '?')}")
+            except Exception as e:  # noqa: BLE001 - which exception is raised is what is compared
+                res["pairs"].append(f"E:{type(e).__name__}")
+        # --- VolSphereFrustumConeIntersection._get_volume: closed form or Monte Carlo
+        kind = case["sfi"]
+        fr = VO.VolFrustumCone(c[0], r[0], c[1], r[1])
+        if kind == "both":                               # a frustum whose two ends coincide with the sphere
+            fr = VO.VolFrustumCone(c[0], r[0], c[0], r[0])
+        sc, sr = {"end1": (c[0], r[0]), "end2": (c[1], r[1]), "end1-radius": (c[0], r[0] + np.float32(0.5)), "end2-radius": (c[1], r[1] + np.float32(0.5)),
+                  "apart": (c[2], r[2]), "end1-close": (c[0] + np.float32(1e-7), r[0]), "both": (c[0], r[0])}[kind]
+        sp = VO.VolSphere(sc, sr)
+        inter = sp.intersect(fr)
+        log = []
+        real_c, real_mc = VO.VolSphereFrustumConeIntersection.__dict__["calc_concentric_intersect_volume"], VO.VolMCObject._get_volume
+        try:
+            VO.VolSphereFrustumConeIntersection.calc_concentric_intersect_volume = staticmethod(lambda s_, f_: log.append("conc") or 1.0)
+            VO.VolMCObject._get_volume = lambda self, **kw: log.append("mc") or 2.0
+            inter._get_volume()
+        finally:
+            VO.VolSphereFrustumConeIntersection.calc_concentric_intersect_volume = real_c
+            VO.VolMCObject._get_volume = real_mc
+        res["sfi"] = {"class": type(inter).__name__, "log": log,
+                      "tests": [int(bool(np.allclose(sp.center, fr.c1))), int(bool(np.allclose(sp.radius, fr.r1))),
+                                int(bool(np.allclose(sp.center, fr.c2))), int(bool(np.allclose(sp.radius, fr.r2)))]}
+        # --- inclusion-exclusion at the union nodes (the operand volumes and the closed forms are the library's own)
+        s0, f01, s1 = VO.VolSphere(c[0], r[0]), VO.VolFrustumCone(c[0], r[0], c[1], r[1]), VO.VolSphere(c[1], r[1])
+        u = s0.union(f01)
+        res["sfu"] = {"class": type(u).__name__, "x": float(s0.get_volume()), "y": float(f01.get_volume()),
+                      "z": float(VO.VolSphereFrustumConeIntersection.calc_concentric_intersect_volume(s0, f01)), "v": float(u._get_volume())}
+        u2 = s0.union(s1)
+        res["s2u"] = {"class": type(u2).__name__, "x": float(s0.get_volume()), "y": float(s1.get_volume()),
+                      "z": float(VO.VolSphere2Intersection.calc_intersect_volume(s0, s1)), "v": float(u2._get_volume())}
+        # --- the cache of get_volume
+        calls = []
+
+        class Counted(VO.VolSphere):
+            def _get_volume(self):
+                calls.append(1)
+                return case["cache"][1]
+
+        o = Counted(c[0], r[0])
+        o.volume = case["cache"][0]
+        got = o.get_volume()
+        res["cache"] = {"ret": float(got), "after": None if o.volume is None else float(o.volume), "calls": len(calls)}
+        return res
+
+    def lines(self, case, res):
+        if "exc" in res or "pairs" not in res:
+            return []
+        out = []
+        for (op, ea, eb), exp in zip(case["pairs"], res["pairs"]):
+            out.append((f"gvolfront op={op} a={obj_enc(ea)} b={obj_enc(eb)}", exp))
+        t = res["sfi"]["tests"]
+        if res["sfi"]["class"] == "VolSphereFrustumConeIntersection" and len(res["sfi"]["log"]) == 1:
+            out.append((f"gvolfront op=sfi c1={t[0]} r1={t[1]} c2={t[2]} r2={t[3]}", res["sfi"]["log"][0]))
+        for k, cls in (("sfu", "VolSphereFrustumConeUnion"), ("s2u", "VolSphere2Union")):
+            if res[k]["class"] == cls:
+                out.append((f"gvolfront op={k} x={res[k]['x']!r} y={res[k]['y']!r} z={res[k]['z']!r}", {"approx": [res[k]["v"]], "rtol": 1e-5, "atol": 1e-6}))
+        pre, comp = case["cache"]
+        out.append((f"gvolfront op=cache vol={'none' if pre is None else repr(pre)} compute={comp!r}",
+                    {"approx": [res["cache"]["ret"], res["cache"]["after"] if res["cache"]["after"] is not None else float("nan")], "rtol": 1e-12, "atol": 0.0}))
+        return out
+
+    def oracle(self, case, res):
+        if not isinstance(res, dict) or "exc" in res:
+            return [("objects-raises", f"the instrumented run failed: {res!r}"[:300])]
+        out = []
+        pre, comp = case["cache"]
+        if res["cache"]["calls"] != (1 if pre is None else 0):
+            out.append(("volume-cache", f"get_volume with cache {pre!r} called _get_volume {res['cache']['calls']} times"))
+        return out
+
+
+SUITES = [TreeVol(), VolFront(), VolObjects()]
 TECHNIQUE = "Lean 4 theorems about the per-node inclusion–exclusion term list REGENERATED from analysis/volume.py (levels 1, 2, ≥3 for every tree; union identity for collinear chains over a finitely additive measure) + Float cross-check + quadrature oracle of the true union"
 LEVEL_TEXT = ("Kernel-checked: for every tree, level 1 = Σ spheres and level 2 = Σ spheres + Σ frusta; from level 3 the generated term list is "
               "Σ spheres + Σ (frustum − parent-sphere∩frustum − child-sphere∩frustum), which under the property's spacing hypotheses is the measure of "
